@@ -21,7 +21,7 @@ type concState struct {
 	raceRuns                    int
 }
 
-var cc = &concState{}
+var cc = &concState{payloadsSeen: map[string]int{}}
 
 func (k *check) concPayloads() (mocks, srcs []cw.PayloadSpec) {
 	c := k.c
@@ -166,7 +166,11 @@ func (k *check) buildRaceBinary() string {
 		}
 	}
 	args = append(args, "-o", out, "./internal/c20/racemain")
+	t0 := time.Now()
 	r := core.Exec(c.Verif, core.BaseEnv("CGO_ENABLED=1"), 15*time.Minute, "", "go", args...)
+	if os.Getenv("C20_DEBUG") != "" {
+		fmt.Printf("C20_DEBUG go build -race took %.1fs\n", time.Since(t0).Seconds())
+	}
 	if r.Exit != 0 || r.TimedOut {
 		c.Inconclusive("race-binary-does-not-build")
 		fmt.Println("C20: go build -race failed:", tail(r.Stdout+r.Stderr, 800))
@@ -189,7 +193,11 @@ func (k *check) raceJobs(bin string) []func() {
 			jf := filepath.Join(work, "job.json")
 			os.WriteFile(jf, []byte(mustJSON(job)), 0o644)
 			logp := filepath.Join(work, "racelog")
+			t0 := time.Now()
 			r := core.Exec(work, k.env(home, "GOMAXPROCS=8", "GOGC=400", "GORACE=halt_on_error=0 log_path="+logp), 20*time.Minute, "", bin, jf)
+			if os.Getenv("C20_DEBUG") != "" {
+				fmt.Printf("C20_DEBUG race run %s took %.1fs\n", name, time.Since(t0).Seconds())
+			}
 			var out cw.RaceOut
 			b, err := os.ReadFile(job.Out)
 			if r.TimedOut || err != nil || jsonUnmarshal(b, &out) != nil || out.Err != "" {
@@ -236,8 +244,11 @@ func (k *check) raceJobs(bin string) []func() {
 			k.concJudge("goroutines-"+name, payloads, outs, oks)
 		}
 	}
-	jobs := []func(){one("mock", mocks, 50), one("sources", srcs, k.c.N(15, 50))}
-	jobs = append(jobs, func() {})
+	// quick: 16 writers x 12 stores and 16 readers (the race runtime is ~15x slower here); thorough: x 50
+	jobs := []func(){one("sources", srcs, k.c.N(8, 50))}
+	if !k.c.Quick() {
+		jobs = append(jobs, one("mock", mocks[:3], 50))
+	}
 	return jobs
 }
 
